@@ -2,4 +2,6 @@
 Require Extraction.
 Require Import ExtrOcamlBasic.
 From Gatery Require Import BvsDefs BvsSpec.
-Extraction "c18_model.ml" step mk_empty parseBitVector printState formatState formatRange ops_ok.
+Extraction "c18_model.ml" step mk_empty parseBitVector printState formatState formatRange ops_ok
+  asData parseBitVectorValue createDefaultValue createDefaultData parseBitChar parseBitBool
+  convertToExtended tryConvertToDefault bitwiseNegation clearAll.
